@@ -326,3 +326,7 @@ package tmconsensus
 //@   ensures len(result) == len(vs) && fresh(result)
 //@   modifies nothing
 //@   loop 1 invariant out-is-private: fresh(out) && len(out) == len(vs)
+
+//@ func ProposalSignBytes
+//@   trusted
+//@   modifies nothing
